@@ -19,7 +19,7 @@ ASSUMPTIONS = [
 CASES = {"quick": 6000, "thorough": 1500000}
 MIN_CASES = {"quick": 1500, "thorough": 30000}
 REQUIRED_CLASSES = ["valid", "invalid"]
-REQUIRED_COUNTERS = ["tiling_checked", "inputs_unchanged_checked", "invalid_rejected_checked", "entry:text", "entry:file", "entry:tree", "entry:handle",
+REQUIRED_COUNTERS = ["tiling_checked", "inputs_unchanged_checked", "invalid_rejected_checked", "same_tree_loaded_twice", "entry:text", "entry:file", "entry:tree", "entry:handle",
                      "struct:empty", "struct:full_cover", "struct:ring", "struct:tjunction", "struct:border"]
 
 
@@ -80,6 +80,25 @@ def check(case, ctx):
         return
     die, nl = res
     judge_die(ctx, die, d, nl)
+    if case["entry"] == "tree":
+        # the caller's own tree object: loading must not consume or alter it (a second load gives the same die)
+        import copy
+        from frame.die.die import Die
+        from frame.geometry.geometry import Rectangle
+        tree = gd.die_tree(d)
+        keep = copy.deepcopy(tree)
+        Rectangle.undefine_epsilon()
+        ok1, d1 = ctx.call(Die, tree, nl)
+        ok2, d2 = ctx.call(Die, tree, nl)
+        ctx.count("same_tree_loaded_twice")
+        if tree != keep:
+            ctx.violation("input_tree_altered", f"loading altered the caller's description: {keep} -> {tree}")
+        elif ok1 and ok2:
+            snap = lambda x: sorted(dieutil.rect_key(r) for r in x.ground_regions + x.specialized_regions + x.blockages + x.fixed_regions)  # noqa
+            if snap(d1) != snap(d2):
+                ctx.violation("second_load_differs", f"two loads of the same description differ: {snap(d1)} vs {snap(d2)}")
+        elif ok1 != ok2:
+            ctx.violation("second_load_differs", f"first load {'accepted' if ok1 else 'rejected'}, second {'accepted' if ok2 else 'rejected'}: {d}")
 
 
 def judge_die(ctx, die, d, nl=None, refined=False):
